@@ -135,12 +135,16 @@ def lower_bound(a, facts):
     return best
 
 
+def _norm_len(c):
+    return c.replace("PtrMetadata(", "len(").replace("*", "").replace("&", "")
+
+
 def proves_ge(a, b, facts):
-    ca, cb = canon(a), canon(b)
+    ca, cb = _norm_len(canon(a)), _norm_len(canon(b))
     for f in facts:
         if f[0] != "cmp":
             continue
-        op, x, y = f[1], canon(f[2]), canon(f[3])
+        op, x, y = f[1], _norm_len(canon(f[2])), _norm_len(canon(f[3]))
         if (x, y) == (ca, cb) and op in ("Ge", "Gt", "Eq"):
             return True
         if (x, y) == (cb, ca) and op in ("Le", "Lt", "Eq"):
@@ -210,6 +214,19 @@ def discharge(ctx, site):
                         return True, "D5: operand known constant on this path"
         if is_index_like(a, ctx.prov) and is_index_like(b, ctx.prov):
             return True, "D3: sum of two in-bounds indices (each <= isize::MAX)"
+        # D6: an operand bounded from above by a slice length on this path (x < len) plus a small constant / another such operand
+        def below_len(x):
+            cx = _norm_len(canon(x))
+            for f in facts:
+                if f[0] == "cmp" and f[1] in ("Lt", "Le") and _norm_len(canon(f[2])) == cx and is_index_like(f[3], ctx.prov):
+                    return True
+                if f[0] == "cmp" and f[1] in ("Gt", "Ge") and _norm_len(canon(f[3])) == cx and is_index_like(f[2], ctx.prov):
+                    return True
+            return False
+        if (below_len(a) or is_index_like(a, ctx.prov)) and (small(cb) or below_len(b) or is_index_like(b, ctx.prov)):
+            return True, "D6: operands bounded by slice lengths on this path (<= isize::MAX each)"
+        if small(ca) and (below_len(b) or is_index_like(b, ctx.prov)):
+            return True, "D6: operand bounded by a slice length on this path"
         return False, f"`{show(a)} + {show(b)}` is not bounded by anything on the path"
     if kind == "bounds" and len(ops) == 2:
         length, idx = ops
@@ -221,8 +238,12 @@ def discharge(ctx, site):
             if lb > ci:
                 return True, f"D2: length >= {lb} on this path"
             return False, f"index {ci} into a slice whose length is not known to exceed it (an empty slice panics)"
-        if proves_ge(length, idx, facts) and any(f[0] == "cmp" and f[1] in ("Lt", "Gt") for f in facts):
-            return True, "D2: dominating idx < len"
+        cl, ci2 = _norm_len(canon(length)), _norm_len(canon(idx))
+        for f in facts:
+            if f[0] == "cmp":
+                x, y = _norm_len(canon(f[2])), _norm_len(canon(f[3]))
+                if (f[1] == "Lt" and (x, y) == (ci2, cl)) or (f[1] == "Gt" and (x, y) == (cl, ci2)):
+                    return True, "D2: dominating idx < len"
         return False, f"index {show(idx)} is not bounded by the slice length {show(length)} on this path"
     if kind.startswith("call:index") and len(ops) == 2:
         # slice[range]: ok when the range ends are discharged elsewhere and within len
